@@ -53,6 +53,37 @@ EXC_CLASSES = {"UserError": common.UserError, "KeyError": UKey, "StopIteration":
                "AttributeError": UAttr, "ValueError": UValue, "BaseException": UBase}
 
 
+class OddCallable:
+    """a perfectly valid callable that happens to be falsy, like an empty callable registry / pool or a configured
+    Mock: every callable role of the API must treat it like a function"""
+
+    def __init__(self, f):
+        self._f = f
+        self.__name__ = getattr(f, "__name__", "odd")
+
+    def __call__(self, *args, **kw):
+        return self._f(*args, **kw)
+
+
+class OddBool(OddCallable):
+    def __bool__(self):
+        return False
+
+
+class OddLen(OddCallable):
+    def __len__(self):
+        return 0
+
+
+def odd(f, style):
+    """wrap according to the case's callable style: function (as it is) | falsy (__bool__ False) | len0 (__len__ 0)"""
+    if style == "falsy":
+        return OddBool(f)
+    if style == "len0":
+        return OddLen(f)
+    return f
+
+
 def _raise(name):
     e = EXC_CLASSES[CUR["exc"]](name)
     e.c19_name = name
@@ -158,7 +189,7 @@ def make_fn(name, beh):
         _raise(name)
 
     f.__name__ = name
-    FNS[(name, beh)] = f
+    f = FNS[(name, beh)] = odd(f, CUR.get("callable", "function"))
     return f
 
 
@@ -176,7 +207,7 @@ def make_factory(g, beh):
         _raise(g)
 
     fac.__name__ = g
-    return fac
+    return odd(fac, CUR.get("callable", "function"))
 
 
 def build(tree, cfg):
@@ -325,6 +356,7 @@ def observe(case):
     CUR["cls"] = None
     CUR["insts"] = []
     CUR["exc"] = cfg.get("exc", "UserError")
+    CUR["callable"] = cfg.get("callable", "function")
     results = []
     try:
         tree = case["tree"]
@@ -494,6 +526,7 @@ def rand_cfg(rng, mode):
         "rebuild": rng.random() < 0.3,
         "share": rng.choice(["object", "object", "object", "rebuilt"]),
         "init_false": rng.random() < 0.4,
+        "callable": rng.choice(["function", "function", "function", "falsy", "len0"]),
     }
 
 
@@ -668,6 +701,7 @@ def dist(case, obs):
         "conv.api": case.get("cfg", {}).get("api"),
         "conv.init_false": bool(case.get("cfg", {}).get("init_false")) if case["mode"] == "initDefault" else "-",
         "conv.repeated_input": len({json.dumps(i, sort_keys=True) for i in case["inputs"]}) < len(case["inputs"]),
+        "conv.callable_style": case.get("cfg", {}).get("callable", "function"),
         "conv.n_sharing_fields": sum(1 for f in case["flds"] if f["kind"] == "shared"),
         "conv.other_fields": "+".join(sorted({f["kind"] for f in case["flds"] if f["kind"] != "shared"})) or "-",
         "conv.first_hooked_field": next((f["kind"] for f in case["flds"] if f["kind"] != "plain"), "-"),
@@ -709,7 +743,7 @@ def shrink(case):
             yield dict(case, flds=rest)
     base = {"api": "attr.s", "slots": None, "frozen": False, "kw_only": False, "hookcfg": "cls_convert",
             "list_form": None, "dflt_style": "value", "dinf": "kw", "din_pos": False, "exc": "UserError",
-            "rebuild": False, "share": "object", "init_false": False}
+            "rebuild": False, "share": "object", "init_false": False, "callable": "function"}
     cfg = case.get("cfg", {})
     for k, v in base.items():
         if cfg.get(k) != v:
